@@ -42,6 +42,14 @@ if rc != 0:
     ck.finish({"evaluations": 1, "distinct_nontrivial": 0, "rule": "n/a", "samples": ["harness run failed"]})
 data = json.load(open(res))
 probes, cells = data["Probes"], data["Cells"]
+# every file gets one UNRESTRICTED problem ("V <lang> <std>"); if it is missing, an unrestricted problem was suppressed
+lost = [c for c in cells if not c.get("Lang") or not c.get("Std")]
+for c in lost[:5]:
+    cellsrc = {"module": ("go 1.%d" % c["Module"]) if c["Module"] else "no module (GOPATH mode)",
+               "flag": ("-go 1.%d" % c["Flag"]) if c["Flag"] else "-go module", "tag": ("//go:build go1.%d" % c["Tag"]) if c["Tag"] else "none"}
+    ck.violation("unrestricted-suppressed", "a problem reported WITHOUT any version restriction was suppressed (after problems with restrictions had been reported from the same pass): %s" % cellsrc,
+                 {"cell": cellsrc, "reported_probes": c.get("Reported")})
+cells = [c for c in cells if c.get("Lang") and c.get("Std")]
 
 def ver(s):
     m = re.match(r"go(\d+)\.(\d+)", s)
@@ -149,10 +157,10 @@ nontriv = len({(c["Module"], c["Flag"], c["Tag"]) for c in cells if c["Tag"] or 
 ck.assume += ["go/types Info.FileVersions = max(tag, go1.21) for tagged files (external; compared with the real type checker on every cell)",
               "go/version.Compare on well-formed go1.N strings is the lexicographic order on (major, minor)"]
 ck.finish({
-    "evaluations": len(cells) * len(probes) + 7 * len(clicells),
+    "evaluations": max(1, len(cells) * len(probes) + 8 * len(clicells)),
     "distinct_nontrivial": nontriv,
     "rule": "cell = (module go directive, -go flag, //go:build tag) run through the real loader+runner with a probe analyzer calling report.Report with each setter list; non-trivial = tag or flag present (effective version differs from the plain module version); every cell is compared on %d probes (4 bound kinds x 11 thresholds + 40 two-setter lists)" % len(probes),
-    "samples": [{"cell": cells[i], "probes": probes[:2]} for i in range(0, len(cells), max(1, len(cells) // 3))][:3],
+    "samples": ([{"cell": cells[i], "probes": probes[:2]} for i in range(0, len(cells), max(1, len(cells) // 3))][:3] or ["no cell carried the unrestricted marker problem"]),
     "cells": len(cells), "probes": len(probes), "cli_cells": len(clicells),
     "traces_validated_against_impl": len(cells),
 })
